@@ -173,3 +173,27 @@ Definition client_read_raw (r : http_res) : wire_res (list (list point)) :=
   | HBody b => client_view_raw b
   | _ => WErr
   end.
+
+(** ** the globbing endpoints /files and /items (cmd/server.go handleFiles / handleItems, cmd/glob.go
+    globFilesRemote / globItemsRemote): the matched names travel one per line; the client cuts the
+    body with bufio.ScanLines (a line ends at LF; one trailing CR is dropped; a last line without
+    LF counts when it is not empty) *)
+Definition names_body (names : list (list Z)) : list Z := flat_map (fun n => n ++ [10]) names.
+
+Definition drop_cr (l : list Z) : list Z :=
+  match rev l with
+  | 13 :: r => rev r
+  | _ => l
+  end.
+
+Fixpoint split_lines (s : list Z) (cur : list Z) : list (list Z) :=
+  match s with
+  | [] => match cur with [] => [] | _ => [drop_cr (rev cur)] end
+  | c :: r => if c =? 10 then drop_cr (rev cur) :: split_lines r [] else split_lines r (c :: cur)
+  end.
+
+(** what the client makes of the names the server matched (an empty body is "nothing exists") *)
+Definition client_names (names : list (list Z)) : list (list Z) := split_lines (names_body names) [].
+
+(** a name the line protocol carries: no line break, no trailing carriage return *)
+Definition line_safe (n : list Z) : Prop := ~ In 10 n /\ (forall r, n <> r ++ [13]).
